@@ -66,6 +66,7 @@ theorem recoverFromSentinel_roles {s s' : St} {ra : Nat} (h : RolesCore s) (sp :
             show BondedOf s r.id a
             rw [hid]; exact choose_bondedOf h.uniq hch
           · intro a' ha'; exact h.succ r (getRa_mem hg) a' ha'
+          · intro a' ha'; exact h.succFresh r (getRa_mem hg) a' ha'
           · intro a' _ hs; rw [hsn] at hs; cases hs
           · intro t a' _ hp; rw [hpn] at hp; cases hp
         have s1 : SuccProp (setRa s { r with proposer := some a }) := by
@@ -166,6 +167,7 @@ theorem abruptRemoveProposer_core {s : St} {ra : Nat} (h : RolesCore s) : RolesC
           apply c1.of_setRa (r0 := r) hg1 (by rfl)
           · intro a' ha'; cases ha'
           · intro a' ha'; exact c1.succ r (hras ▸ hrm) a' ha'
+          · intro a' ha'; exact c1.succFresh r (hras ▸ hrm) a' ha'
           · intro a' ha'; cases ha'
           · intro t a' hta hp
             rw [hpa] at hp; injection hp with hp; subst hp
@@ -194,6 +196,7 @@ theorem abruptRemoveProposer_core {s : St} {ra : Nat} (h : RolesCore s) : RolesC
             constructor
             · intro hc; cases hc
             · rw [hqa]; exact h.ne r hrm a hpa
+        · exact Or.inl rfl
         · exact h.optOut q (getSeq_mem hq)
         · intro t hta
           rw [hqa] at hta
@@ -216,6 +219,7 @@ theorem setSuccessor_none_roles {s : St} {ra : Nat} (h : RolesCore s) (sp : Succ
     constructor
     · apply h.of_setRa (r0 := r) hg (by rfl)
       · intro a ha; exact h.prop r (getRa_mem hg) a ha
+      · intro a ha; cases ha
       · intro a ha; cases ha
       · intro a _ hs; cases hs
       · intro t a _ hp; exact hp
